@@ -127,7 +127,7 @@ func init() {
 		ID:    "C12",
 		Level: "exploration",
 		Rule: "(a) every byte string of length <= 3 (quick) / <= 4 (thorough) over 22 YAML-significant bytes (incl. 0xFF) as a whole input file and spliced at three anchor points of a valid configuration; (b) 41 schema positions x 30 node shapes (null, bools, numbers, non-finite and overflowing numbers, strings, sequences, mappings with scalar / numeric / sequence keys, anchors and aliases, tags, timestamps, merge keys, block indicators) singly and (thorough: all; quick: every pair involving a composite shape in the first position) in pairs; " +
-			"(c) every glob pattern of length <= 3 (quick) / <= 4 (thorough) over {*, ?, [, ], \\, a, /, ., -, ^}; (d) all 64 presence combinations of the 6 flags; (e) complete digraphs K2..K5 (thorough K6) as service and as parameter dependency graphs; (f) nesting depth 2^k up to 4096 and names of 64 KiB; (g) every string of length <= 4 (quick) / <= 5 (thorough) over {(, ), \", a, +, [, ], ., comma, 1} as the argument text of env / envInt / todo chunks; (h) all pairs and triples of the 11 semantic defects of C16 x 4 flag combinations. Oracle: returns, exit status 0 or 1, exit 0 => the output parses as Go, exit != 0 => no output written; non-trivial = rejected or contains a non-alphanumeric byte; distinct = distinct input",
+			"(c) every glob pattern of length <= 3 (quick) / <= 4 (thorough) over {*, ?, [, ], \\, a, /, ., -, ^}; (d) all 64 presence combinations of the 6 flags; (e) complete digraphs K2..K5 (thorough K6) as service and as parameter dependency graphs; (f) nesting depth 2^k up to 4096 and names of 64 KiB; (g) every string of length <= 4 (quick) / <= 5 (thorough) over {(, ), \", a, +, [, ], ., comma, 1} as the argument text of env / envInt / todo chunks; (i) all 64 two-alias tables whose paths begin with aliases x 5 references; (h) all pairs and triples of the 11 semantic defects of C16 x 4 flag combinations. Oracle: returns, exit status 0 or 1, exit 0 => the output parses as Go, exit != 0 => no output written; non-trivial = rejected or contains a non-alphanumeric byte; distinct = distinct input",
 		Assumptions: []string{"a hang is a case exceeding the 120 s watchdog in the worker and in three isolated re-runs; cases slower than 20 s are listed as notes, never as violations", "printer write errors (closed stdout) are outside the input space"},
 		BudgetQuick: 280 * time.Second, BudgetThorough: 1700 * time.Second,
 		Run: func(w *W) {
@@ -285,6 +285,24 @@ func init() {
 					c.Distinct("nontrivial", c.ID)
 				})
 			})
+			// (i) alias tables whose paths begin with (other) aliases, with references through them
+			paths := []string{"a", "b", "a/x", "b/x", "c/a", "x/y", "a/a", "b/a/b"}
+			for _, pa := range paths {
+				for _, pb := range paths {
+					for _, ref := range []string{"a.T", "b.T", "a/z.T", "b/a.T", "c.T"} {
+						pa, pb, ref := pa, pb, ref
+						id := fmt.Sprintf("aliases/a=%s/b=%s/%s", pa, pb, ref)
+						w.Case(id, func(c *C) {
+							cfg := &Cfg{Meta: &Meta{Pkg: P("gen"), Imports: []KV{{"a", pa}, {"b", pb}}, Functions: []KV{{"f", "b.F"}}}, Params: []Param{{"p", "%f()%"}},
+								Services:   []Service{{Name: "s", Constructor: P(strings.TrimSuffix(ref, ".T") + ".New"), Type: P("*" + ref), Getter: P("GetS"), Args: []any{"!value " + ref + "{}"}}},
+								Decorators: []Decorator{{Tag: "t", Decorator: strings.TrimSuffix(ref, ".T") + ".Dec"}}}
+							c.Distinct("all", id)
+							c.Distinct("nontrivial", id)
+							c12check(c, id, []File{{"c.yaml", cfg.YAML()}}, std, "aliases")
+						})
+					}
+				}
+			}
 			// (e) dense graphs
 			maxK := 5
 			if !w.Env.Quick() {
